@@ -878,9 +878,16 @@ def remap_by_types(
             t_left = self.lookup_type(t_node.left)
             t_right = self.lookup_type(t_node.right)
 
+            numbers = (int, float, bool)
             if (t_left == Any) or (t_right == Any):
                 self._found_types[node] = Any
                 self._found_types[t_node] = Any
+            elif t_left not in numbers or t_right not in numbers:
+                # Not arithmetic on numbers: joining two strings gives a string, and nothing
+                # is known about the rest.
+                joined = t_left == str and t_right == str and isinstance(node.op, ast.Add)
+                self._found_types[node] = str if joined else Any
+                self._found_types[t_node] = str if joined else Any
             elif (t_left == float) or (t_right == float):
                 self._found_types[node] = float
                 self._found_types[t_node] = float
